@@ -273,8 +273,10 @@ class Campaign:
             cs = [sample_cfg(r, emphasis) for _ in range(cfgs_per_model)] + list(fixed_cfgs or [])
             if md["family"] == "chain":
                 # the trigger LP belongs to the last thread: keep that thread off the processor while the chain runs ahead
-                cs = [dict(c, threads=3, park=r.choice([300, 600, 1500, 3000]), batch=r.choice([1, 1, 2]), switch=r.choice(["1/1", "1/2", "1/4", "1/8"]),
-                           policy=r.choice([4, 4, 0, 2]))
+                # (measured on the seeded change C04b: with the iteration-granular policy, a switch at every pass, batch 1 and no skew about
+                # a third of the runs on an 8-hop chain reach the window; other settings almost never)
+                cs = [dict(c, threads=3, park=r.choice([150, 300, 600, 1000, 1500, 3000]), batch=r.choice([1, 1, 1, 2]),
+                           switch=r.choice(["1/1", "1/1", "1/1", "1/2", "1/4"]), policy=r.choice([4, 4, 4, 4, 0, 2]), skew=r.choice([0, 0, 0, c.get("skew", 0)]))
                       if not c.get("ranks") else c for c in cs]
             for i, c in enumerate(cs):
                 jobs.append((md, c, i))
